@@ -43,9 +43,9 @@ func runFIFO(t *rapid.T) {
 		go func() { f(); close(done) }()
 		select {
 		case <-done:
-		case <-time.After(10 * time.Second):
+		case <-time.After(60 * time.Second):
 			wedged = true
-			t.Fatalf("%s did not return within 10s", what)
+			t.Fatalf("%s did not return within 60s", what)
 		}
 	}
 
@@ -98,9 +98,9 @@ func runFIFO(t *rapid.T) {
 				hs.add("get(empty)")
 				return
 			}
-			m, ok := q.Get(10 * time.Second)
+			m, ok := q.Get(60 * time.Second)
 			if !ok {
-				t.Fatalf("queue with %d undelivered messages delivered nothing within 10s; history %v", len(model), hs.ops)
+				t.Fatalf("queue with %d undelivered messages delivered nothing within 60s; history %v", len(model), hs.ops)
 			}
 			if !bytes.Equal(m, model[0]) {
 				t.Fatalf("get returned %q (len %d), want head of model %q (len %d); history %v", m, len(m), model[0], len(model[0]), hs.ops)
@@ -135,7 +135,7 @@ func runFIFO(t *rapid.T) {
 	q = dqh.OpenWithHook(dir, max, syncEvery, hook)
 	checkDepth("after final reopen")
 	for i, want := range model {
-		m, ok := q.Get(10 * time.Second)
+		m, ok := q.Get(60 * time.Second)
 		if !ok {
 			t.Fatalf("final drain: message %d of %d never arrived; history %v", i, len(model), hs.ops)
 		}
